@@ -621,6 +621,20 @@ pub fn search(which: &str) -> Option<String> {
         for n in structured_lengths(1u64 << 18) { if let Some(x) = check_plan_scalar(n) { return Some(x); } }
         return None;
     }
+    if let Some(lim) = which.strip_prefix("scalar_pairs:") {
+        // same for FftPlannerScalar<f64>: every ordered pair of lengths below the limit
+        let lim: usize = lim.parse().unwrap_or(96);
+        for a in 0..lim { for b in 0..lim {
+            for (d1, d2) in [(FftDirection::Forward, FftDirection::Forward), (FftDirection::Inverse, FftDirection::Forward)] {
+                let r = quiet(|| { let mut p = crate::FftPlannerScalar::<f64>::new(); let _ = p.plan_fft(a, d1); let f = p.plan_fft(b, d2); (f.len(), f.fft_direction()) });
+                match r {
+                    Err(e) => return Some(format!("FftPlannerScalar<f64>: plan_fft({}, {:?}) then plan_fft({}, {:?}) panicked: {}", a, d1, b, d2, panic_msg(e))),
+                    Ok((l, d)) => if l != b || d != d2 { return Some(format!("FftPlannerScalar<f64>: plan_fft({}, {:?}) then plan_fft({}, {:?}) returned len {} direction {:?}", a, d1, b, d2, l, d)); },
+                }
+            }
+        } }
+        return None;
+    }
     if let Some(lim) = which.strip_prefix("primroot:") {
         // stand-in for the ASSUMED contract of math_utils::primitive_root (Rader's index maps are permutations only if it returns a
         // generator): for every prime p below the limit the returned root has multiplicative order p - 1 (independent naive
@@ -651,7 +665,7 @@ pub fn search(which: &str) -> Option<String> {
     }
 }
 pub fn known(which: &str) -> bool {
-    simd::known(which) || which.starts_with("opcount:") || which.starts_with("dft_scalar:") || which.starts_with("partition:") || which.starts_with("plan_scalar:") || which.starts_with("plan_history:") || which.starts_with("shapes:") || which.starts_with("chunks:") || which == "helpers_small" || which == "sqrt_limit" || which.starts_with("primroot:")
+    simd::known(which) || which.starts_with("opcount:") || which.starts_with("dft_scalar:") || which.starts_with("partition:") || which.starts_with("plan_scalar:") || which.starts_with("plan_history:") || which.starts_with("shapes:") || which.starts_with("chunks:") || which == "helpers_small" || which == "sqrt_limit" || which.starts_with("primroot:") || which.starts_with("scalar_pairs:")
         || matches!(which, "MixedRadix" | "MixedRadixSmall" | "GoodThomasAlgorithm" | "GoodThomasAlgorithmSmall" | "Radix4" | "Radix3" | "RadersAlgorithm" | "BluesteinsAlgorithm")
 }
 
@@ -770,6 +784,34 @@ pub mod simd {
         let limit: usize = which.rsplit(':').next().and_then(|x| x.parse().ok()).unwrap_or(64);
         if which.starts_with("simd_sse:") { sweep!(FftPlannerSse, f32, limit, 2e-4); sweep!(FftPlannerSse, f64, limit, 1e-11); return None; }
         if which.starts_with("simd_avx:") { sweep!(FftPlannerAvx, f32, limit, 2e-4); sweep!(FftPlannerAvx, f64, limit, 1e-11); return None; }
+        if which.starts_with("simd_pairs") {
+            // history quantifier of C10/C04 on the SIMD planners, shape level only (no transform is executed): for every ordered pair
+            // (a, b) of lengths below the first limit, and for the AVX planner additionally every pair a | b of 11-smooth lengths
+            // below the second limit, one planner is asked for a and then for b (same direction and opposite direction): no panic,
+            // the second answer has length b and the requested direction
+            let mut it = which.split(':').skip(1);
+            let small: usize = it.next().and_then(|x| x.parse().ok()).unwrap_or(96);
+            let smooth_limit: usize = it.next().and_then(|x| x.parse().ok()).unwrap_or(4096);
+            macro_rules! pair {
+                ($planner:ident, $ty:ty, $a:expr, $b:expr) => {{
+                    for (d1, d2) in [(FftDirection::Forward, FftDirection::Forward), (FftDirection::Inverse, FftDirection::Forward)] {
+                        let (a, b) = ($a, $b);
+                        let r = quiet(|| { let mut p = crate::$planner::<$ty>::new().unwrap(); let _ = p.plan_fft(a, d1); let f = p.plan_fft(b, d2); (f.len(), f.fft_direction()) });
+                        match r {
+                            Err(e) => return Some(format!("{}<{}>: plan_fft({}, {:?}) then plan_fft({}, {:?}) panicked: {}", stringify!($planner), stringify!($ty), a, d1, b, d2, panic_msg(e))),
+                            Ok((l, d)) => if l != b || d != d2 { return Some(format!("{}<{}>: plan_fft({}, {:?}) then plan_fft({}, {:?}) returned len {} direction {:?}", stringify!($planner), stringify!($ty), a, d1, b, d2, l, d)); },
+                        }
+                    }
+                }};
+            }
+            for a in 0..small { for b in 0..small {
+                pair!(FftPlannerAvx, f32, a, b); pair!(FftPlannerAvx, f64, a, b); pair!(FftPlannerSse, f32, a, b); pair!(FftPlannerSse, f64, a, b);
+            } }
+            let mut smooth: Vec<usize> = Vec::new();
+            for n in 2..smooth_limit { let mut m = n; for p in [2usize, 3, 5, 7, 11] { while m % p == 0 { m /= p; } } if m == 1 { smooth.push(n); } }
+            for &a in &smooth { for &b in &smooth { if b > a && b % a == 0 { pair!(FftPlannerAvx, f32, a, b); pair!(FftPlannerAvx, f64, a, b); } } }
+            return None;
+        }
         if which.starts_with("simd_history") {
             let pool: Vec<usize> = if limit > 100 { vec![5, 16, 25, 35, 36, 37, 50, 64, 70, 74, 101, 125, 128, 192, 193, 250, 407, 625] } else { vec![5, 16, 25, 35, 37, 50, 64, 70, 125, 128, 193] };
             history!(FftPlannerAvx, f32, pool, 2e-4); history!(FftPlannerAvx, f64, pool, 1e-11);
@@ -778,7 +820,7 @@ pub mod simd {
         }
         None
     }
-    pub fn known(which: &str) -> bool { which.starts_with("simd_sse:") || which.starts_with("simd_avx:") || which.starts_with("simd_history") }
+    pub fn known(which: &str) -> bool { which.starts_with("simd_sse:") || which.starts_with("simd_avx:") || which.starts_with("simd_history") || which.starts_with("simd_pairs") }
 }
 #[cfg(not(all(target_arch = "x86_64", feature = "sse", feature = "avx")))]
 pub mod simd {
